@@ -42,6 +42,7 @@ import functools
 import uuid
 
 from edb import errors
+from edb.common import ast
 from edb.common import parsing
 
 from edb.edgeql import qltypes
@@ -937,6 +938,22 @@ def _is_ptr_or_self_ref(
         return False
 
 
+def _depends_on(ir: irast.Base, result_expr: irast.Set) -> bool:
+    """Check if *ir* refers to the object being filtered.
+
+    An equality with an expression that is computed from the filtered
+    object itself (``filter .name = .nickname``) holds for any number
+    of objects, no matter which constraints the left side has.
+    """
+    prefix = result_expr.path_id
+    return bool(ast.find_children(
+        ir,
+        irast.Set,
+        lambda n: n.path_id.startswith(prefix),
+        terminate_early=True,
+    ))
+
+
 def extract_filters(
     result_set: irast.Set,
     filter_set: irast.Set,
@@ -970,7 +987,7 @@ def extract_filters(
 
                 if infer_cardinality(
                     right, scope_tree=scope_tree, ctx=ctx,
-                ).is_single():
+                ).is_single() and not _depends_on(right, result_set):
                     pointers = []
                     left_stype = env.set_types[left]
                     if left_stype == result_stype:
